@@ -55,10 +55,16 @@ MaxCS     == 16777216
 DataModes == {"N", "Z", "4"}        \* compression modes the property quantifies over
 Ciphers   == {"S", "A"}             \* Salsa20, ARC4 ("X": a type byte the format does not define; "-": none)
 
-B0 == [chunks |-> <<>>, mode |-> "N", cs |-> DefaultCS, enc |-> "-", clen |-> 0, sure |-> TRUE, table |-> "-"]
+\* chunks: one record per chunk - except that a call that cuts its payload into more than BulkFrom chunks is
+\* recorded as ONE record with n = that many chunks (same mode and cipher, block indices idx, idx+1, ..,
+\* len = all their bytes): TLC cannot carry 65 537 records per state.  pos = position (0-based) of the record's
+\* first chunk in the file, nch = chunks in the builder.
+B0 == [chunks |-> <<>>, nch |-> 0, mode |-> "N", cs |-> DefaultCS, enc |-> "-", clen |-> 0, sure |-> TRUE, table |-> "-"]
+BulkFrom == 1024
 
 Ret(st, res, may) == [st |-> st, res |-> res, may |-> may]
-NChunks(b) == Len(b.chunks)
+NChunks(b) == b.nch
+NRec(b)    == Len(b.chunks)
 
 \* automatic chunking as documented: one chunk if the data fits, else pieces of cs bytes and a remainder
 NPieces(len, cs) == IF len <= cs THEN 1 ELSE (len + cs - 1) \div cs
@@ -77,15 +83,19 @@ DckOf(cipher) == IF cipher # "-" /\ Known("F01f") THEN "comp" ELSE "dec"
 
 \* chunks appended by an automatically chunking call
 Pieces(b, len, cipher, base, org) ==
-  [i \in 1..NPieces(len, b.cs) |->
-     [mode   |-> IF cipher = "-" THEN b.mode ELSE "E",
-      inner  |-> IF cipher = "-" THEN "-" ELSE InnerOf(b.mode),
-      cipher |-> cipher,
-      idx    |-> IF cipher = "-" THEN NChunks(b) + i - 1 ELSE base + i - 1,
-      off    |-> b.clen + (i - 1) * b.cs,
-      len    |-> PieceLen(len, b.cs, i),
-      org    |-> org, kind |-> "-",
-      dsz    |-> DszOf(cipher, "-", b.mode), dck |-> DckOf(cipher)]]
+  LET np == NPieces(len, b.cs)
+      Rec(i, plen, cnt) ==
+        [mode   |-> IF cipher = "-" THEN b.mode ELSE "E",
+         inner  |-> IF cipher = "-" THEN "-" ELSE InnerOf(b.mode),
+         cipher |-> cipher,
+         idx    |-> IF cipher = "-" THEN NChunks(b) + i - 1 ELSE base + i - 1,
+         pos    |-> NChunks(b) + i - 1, n |-> cnt,
+         off    |-> b.clen + (i - 1) * b.cs,
+         len    |-> plen,
+         org    |-> org, kind |-> "-",
+         dsz    |-> DszOf(cipher, "-", b.mode), dck |-> DckOf(cipher)]
+  IN IF np > BulkFrom THEN <<Rec(1, len, np)>>
+     ELSE [i \in 1..np |-> Rec(i, PieceLen(len, b.cs, i), 1)]
 
 \* is the call inside the quantifier of the property?  (then it has to succeed)
 InDomain(b, cipher) == b.mode \in DataModes /\ cipher \in Ciphers \cup {"-"}
@@ -93,6 +103,7 @@ InDomain(b, cipher) == b.mode \in DataModes /\ cipher \in Ciphers \cup {"-"}
 Lenient(b, cipher) == IF cipher = "-" THEN b.mode \in DataModes ELSE cipher \in Ciphers /\ b.mode # "F"
 
 Added(b, cs, len) == [b EXCEPT !.chunks = b.chunks \o cs, !.clen = b.clen + len,
+                               !.nch = b.nch + (IF Len(cs) = 1 THEN cs[1].n ELSE Len(cs)),
                                !.sure = b.sure /\ len > 0]
 
 \* chunk size 0 (with_chunk_size_unchecked(0), BlteFile::compress(.., 0, ..)) cannot chunk a non-empty payload
@@ -121,7 +132,7 @@ AddMixedR(b, len, cipher) == AddR(b, len, cipher, NChunks(b), "mixed")
 \* not the chunk's position cannot be honoured (the decoder will use the position): error - unless F01b.
 \* `sure` = the position is fixed by the documented chunking (no empty payload was added before).
 AddEncR(b, len, cipher, idx) ==
-  LET c == [mode |-> "E", inner |-> InnerOf(b.mode), cipher |-> cipher, idx |-> idx, off |-> b.clen,
+  LET c == [mode |-> "E", inner |-> InnerOf(b.mode), cipher |-> cipher, idx |-> idx, pos |-> NChunks(b), n |-> 1, off |-> b.clen,
             len |-> len, org |-> "enc", kind |-> "-", dsz |-> DszOf(cipher, "-", b.mode), dck |-> DckOf(cipher)]
       st == Added(b, <<c>>, len)
   IN IF idx # NChunks(b) THEN Ret(st, IF Known("F01b") /\ Lenient(b, cipher) THEN "ok" ELSE "err", TRUE)
@@ -130,7 +141,7 @@ AddEncR(b, len, cipher, idx) ==
 
 \* add_chunk(ChunkData::new(data, m)) / a chunk taken from a parsed file (decompressed size unknown)
 AddChunkR(b, len, m, kind) ==
-  LET c == [mode |-> m, inner |-> "-", cipher |-> "-", idx |-> NChunks(b), off |-> b.clen, len |-> len,
+  LET c == [mode |-> m, inner |-> "-", cipher |-> "-", idx |-> NChunks(b), pos |-> NChunks(b), n |-> 1, off |-> b.clen, len |-> len,
             org |-> "chunk", kind |-> kind, dsz |-> DszOf("-", kind, m), dck |-> "dec"]
   IN Ret(Added(b, <<c>>, len), IF m \in DataModes THEN "ok" ELSE "err", m \notin DataModes)
 
@@ -141,17 +152,17 @@ CompressR(len, cs, m) ==
 
 \* ---- decoding, at chunk granularity ------------------------------------------------------------------
 \* positions (1-based) whose chunk was encrypted under a block index other than its position
-Misindexed(b) == {p \in 1..NChunks(b) : b.chunks[p].cipher = "S" /\ b.chunks[p].idx # p - 1}
+Misindexed(b) == {p \in 1..NRec(b) : b.chunks[p].cipher = "S" /\ b.chunks[p].idx # b.chunks[p].pos}
 \* F01d: 1 mode byte 'E' + 15 bytes of encryption header + 1 byte 'N' = 17 bytes, body 16 < 17
 TooShort(b)   == IF Known("F01d")
-                 THEN {p \in 1..NChunks(b) : b.chunks[p].cipher # "-" /\ b.chunks[p].inner = "N" /\ b.chunks[p].len = 0}
+                 THEN {p \in 1..NRec(b) : b.chunks[p].cipher # "-" /\ b.chunks[p].inner = "N" /\ b.chunks[p].len = 0}
                  ELSE {}
 Broken(b) == Misindexed(b) \cup TooShort(b)
 \* finding that explains a broken position
 WhyBroken(b, p) == IF p \in TooShort(b) THEN "F01d" ELSE IF b.chunks[p].org = "data" THEN "F01a" ELSE "F01b"
 
 \* the decoder's output as a sequence of content segments <<off, len>> (or "garbage")
-DecodeOf(b) == [p \in 1..NChunks(b) |-> IF p \in Broken(b) THEN <<"garbage">> ELSE <<b.chunks[p].off, b.chunks[p].len>>]
+DecodeOf(b) == [p \in 1..NRec(b) |-> IF p \in Broken(b) THEN <<"garbage">> ELSE <<b.chunks[p].off, b.chunks[p].len>>]
 \* build(): an empty builder has nothing to encode; a builder holding a misindexed chunk cannot honour
 \* the identity, so an error is the only conforming outcome besides a container that decodes correctly.
 BuildR(b, table) ==
@@ -162,15 +173,15 @@ BuildR(b, table) ==
 \* natural numbers only: "does not tile" is reported by a value that cannot be the content length
 TilesTo(b) == LET br == Broken(b)
                   RECURSIVE T(_, _)
-                  T(i, at) == IF i > NChunks(b) THEN at
+                  T(i, at) == IF i > NRec(b) THEN at
                               ELSE IF i \in br \/ b.chunks[i].off # at THEN b.clen + 1
                               ELSE T(i + 1, at + b.chunks[i].len)
               IN T(1, 0)
 Identity(b)      == TilesTo(b) = b.clen
 \* a single unencrypted chunk is written with the 8-byte header and no table (unless the 40-byte format is forced)
-HasTable(b)      == NChunks(b) > 1 \/ b.table = "ext" \/ \E p \in 1..NChunks(b) : b.chunks[p].mode = "E"
+HasTable(b)      == NChunks(b) > 1 \/ b.table = "ext" \/ \E p \in 1..NRec(b) : b.chunks[p].mode = "E"
 TableTruthful(b) == HasTable(b) =>
-                      \A p \in 1..NChunks(b) : b.chunks[p].dsz = "len" /\ (b.table = "ext" => b.chunks[p].dck = "dec")
+                      \A p \in 1..NRec(b) : b.chunks[p].dsz = "len" /\ (b.table = "ext" => b.chunks[p].dck = "dec")
 
 \* ---- byte-level reader of the header and chunk table ---------------------------------------------------
 \*   "BLTE" | header_size:u32be | [ flags:u8 (0x0F: 24-byte entries, 0x10: 40-byte) | count:u24be |
